@@ -34,6 +34,8 @@ class Ctx:
     def __init__(self, prefix=(), timeout_ms=20000, max_decisions=20000):
         self.solver = z3.Solver()
         self.solver.set("timeout", timeout_ms)
+        self.timeout_ms = timeout_ms
+        self._retrying = False
         self.prefix = list(prefix)
         self.pos = 0
         self.path = []
@@ -87,6 +89,15 @@ class Ctx:
         self.n_checks += 1
         t = time.time()
         r = self.solver.check(*extra)
+        if r == z3.unknown and not self._retrying:
+            # one retry with a four times longer limit (limits are wall-clock and the cores are shared)
+            self._retrying = True
+            try:
+                self.solver.set("timeout", 4 * self.timeout_ms)
+                r = self.solver.check(*extra)
+            finally:
+                self.solver.set("timeout", self.timeout_ms)
+                self._retrying = False
         self.solver_s += time.time() - t
         if r == z3.unknown:
             raise Unsupported("solver unknown: %s" % self.solver.reason_unknown())
